@@ -46,6 +46,9 @@ type startEvent struct {
 	activated   atomic.Bool
 	idGenerator id.IGenerator
 	satisfier   *logic.CatchEventSatisfier
+	// started tells whether the node's loop exists (it is started by Trigger
+	// or by the first token that reaches the node)
+	started atomic.Bool
 }
 
 func newStartEvent(wr *wiring, element *schema.StartEvent, idGenerator id.IGenerator) (evt *startEvent, err error) {
@@ -113,8 +116,14 @@ func (evt *startEvent) flow(ctx context.Context) {
 }
 
 func (evt *startEvent) ConsumeEvent(ev event.IEvent) (result event.ConsumptionResult, err error) {
-	evt.mch <- eventMessage{event: ev}
 	result = event.Consumed
+	if !evt.started.Load() {
+		// The start event has not been triggered and no token has reached it:
+		// nothing drains the mailbox. Queueing the event here only fills it
+		// and, after 2n+1 events, blocks the publisher for ever.
+		return
+	}
+	evt.mch <- eventMessage{event: ev}
 	return
 }
 
@@ -122,6 +131,7 @@ func (evt *startEvent) Trigger(ctx context.Context) {
 	evt.once.Do(func() {
 		sender := evt.tracer.RegisterSender()
 		go evt.run(ctx, sender)
+		evt.started.Store(true)
 	})
 
 	evt.mch <- startMessage{}
@@ -131,6 +141,7 @@ func (evt *startEvent) NextAction(ctx context.Context, flow Flow) chan IAction {
 	evt.once.Do(func() {
 		sender := evt.tracer.RegisterSender()
 		go evt.run(ctx, sender)
+		evt.started.Store(true)
 	})
 
 	response := make(chan IAction, 1)
